@@ -329,7 +329,13 @@ def can_fail(E, fn, depth=0):
     for bid, st in fn.all_stmts():
         if st.get('k') == 'return' and isinstance(st.get('e'), dict):
             en = enum_name(st['e'])
+            arms = []
+            e0 = strip_all_casts(fn.resolve(st['e']))
+            if isinstance(e0, dict) and e0.get('k') == 'cond':
+                arms = [enum_name(fn.resolve(e0.get('a'))), enum_name(fn.resolve(e0.get('bb')))]
             if en and en.startswith('UBASE_ERR_') and en not in ERR_OK:
+                r = True
+            elif any(a and a.startswith('UBASE_ERR_') and a not in ERR_OK for a in arms):
                 r = True
             else:
                 e = strip_all_casts(fn.resolve(st['e']))
